@@ -1339,6 +1339,29 @@ type loopFrame struct {
 func (x *Exec) havocLoop(st *State, fr *Frame, hdr *ssa.BasicBlock) {
 	ms := x.prog.modSetOfBlocks(fr.fn, fr.loops.body[hdr], x)
 	lc := x.loopContractFor(fr, fr.loops.ordinal[hdr])
+	// locations forgotten by hook `havoc` directives that can fire inside the loop
+	if x.contract != nil {
+		fired := x.hooksFiringIn(fr, hdr)
+		for _, h := range x.contract.Hooks {
+			if len(h.Havocs) == 0 || !fired["$hook:"+h.Kind+":"+h.Pattern] {
+				continue
+			}
+			env := x.envFor(st, x.topFrame(fr))
+			for _, ls := range h.Havocs {
+				if l, err := x.resolveLoc(env, ls); err == nil {
+					if l.All {
+						ms.all = true
+					}
+					for i, n := range l.Arrays {
+						ms.heap[n] = true
+						ms.sorts[n] = l.Sorts[i]
+					}
+				} else {
+					ms.all = true
+				}
+			}
+		}
+	}
 	if os.Getenv("GVC_DEBUG") != "" {
 		fmt.Fprintf(os.Stderr, "havocLoop %s L%d all=%v heap=%v\n", fr.fn.Name(), fr.loops.ordinal[hdr], ms.all, ms.heap)
 	}
@@ -1553,6 +1576,7 @@ func (x *Exec) hooksFiringIn(fr *Frame, hdr *ssa.BasicBlock) map[string]bool {
 	mark := func(kind, key string, any bool) {
 		for _, h := range fc.Hooks {
 			if any || (h.Kind == kind && x.matchKey(h.Pattern, key)) {
+				out["$hook:"+h.Kind+":"+h.Pattern] = true
 				for _, d := range h.Dos {
 					n := d.Name
 					if i := strings.Index(n, "["); i > 0 {
